@@ -135,13 +135,39 @@ def compute_all(recipe) -> Dict[str, dict]:
     return {cid(c): run_config(recipe, *c) for c in config_ids(recipe)}
 
 
+def _run_cli_inproc(argv: List[str]) -> dict:
+    """bin/sum_product.py as __main__ inside this interpreter (so at this interpreter's optimisation level)."""
+    import contextlib
+    import io
+    import runpy
+    so, se = io.StringIO(), io.StringIO()
+    rec: Dict[str, Any] = {"exit": 0, "exc": None}
+    old_argv = sys.argv
+    sys.argv = ["/repo/bin/sum_product.py"] + list(argv)
+    try:
+        with contextlib.redirect_stdout(so), contextlib.redirect_stderr(se), warnings.catch_warnings():
+            warnings.simplefilter("always")
+            runpy.run_path("/repo/bin/sum_product.py", run_name="__main__")
+    except SystemExit as e:
+        rec["exit"] = e.code if isinstance(e.code, int) else (0 if e.code is None else 1)
+    except BaseException as e:  # noqa
+        rec["exit"] = 1
+        rec["exc"] = f"{type(e).__name__}@{_exc_site(e)}: {str(e)[:160]}"
+    finally:
+        sys.argv = old_argv
+    rec["stdout"], rec["stderr"] = so.getvalue(), se.getvalue()[-400:]
+    return rec
+
+
 def _driver_main():
-    """sub-process entry: recipes (JSON list) on stdin -> list of compute_all results on stdout."""
+    """sub-process entry: {"recipes": [...], "cli": [argv, ...]} on stdin -> compute_all per recipe and one
+    bin/sum_product.py run per argv, as JSON on stdout."""
     import torch
     torch.set_num_threads(1)
-    recipes = json.load(sys.stdin)
-    out = [compute_all(r) for r in recipes]
-    sys.stdout.write(json.dumps({"debug": __debug__, "doc": _driver_main.__doc__ is not None, "results": out}))
+    job = json.load(sys.stdin)
+    out = [compute_all(r) for r in job.get("recipes", [])]
+    cli = [_run_cli_inproc(a) for a in job.get("cli", [])]
+    sys.__stdout__.write(json.dumps({"debug": __debug__, "doc": _driver_main.__doc__ is not None, "results": out, "cli": cli}))
 
 
 # ------------------------------------------------------------------------------------------
@@ -317,15 +343,19 @@ def _env():
     return env
 
 
-def run_level(recipes: List[dict], level: str) -> Tuple[Optional[dict], str]:
+def run_level(recipes: List[dict], level: str, argvs: Optional[List[List[str]]] = None) -> Tuple[Optional[dict], str]:
     cmd = [PY] + ([level] if level else []) + ["-c", "import props.c11_bounded as m; m._driver_main()"]
-    p = subprocess.run(cmd, input=json.dumps(recipes), capture_output=True, text=True, env=_env(), cwd="/verif", timeout=900)
+    p = subprocess.run(cmd, input=json.dumps({"recipes": recipes, "cli": argvs or []}), capture_output=True, text=True,
+                       env=_env(), cwd="/verif", timeout=1800)
     if p.returncode != 0:
         return None, f"exit {p.returncode}: {p.stderr[-400:]}"
     try:
-        return json.loads(p.stdout), ""
+        out = json.loads(p.stdout)
     except Exception as e:  # noqa
         return None, f"unparsable output ({e}): {p.stdout[:200]}"
+    if (out["debug"] is not (level == "")) or ((level == "-OO") != (out["doc"] is False)):
+        raise RuntimeError(f"sub-process did not run at level {level!r}: debug={out['debug']}, docstrings={out['doc']}")
+    return out, ""
 
 
 def same_result(a: dict, b: dict, tol: float = 1e-12) -> Optional[str]:
@@ -356,20 +386,18 @@ def same_result(a: dict, b: dict, tol: float = 1e-12) -> Optional[str]:
     return None
 
 
-def interpreter_check(recipes: List[dict], levels=LEVELS, stats: Optional[dict] = None) -> Tuple[List[dict], int]:
+def interpreter_check(recipes: List[dict], levels=LEVELS, stats: Optional[dict] = None, pre: Optional[dict] = None) -> Tuple[List[dict], int]:
     """whole cross product in-process vs `python`, `python -O`, `python -OO`."""
     inproc = [compute_all(r) for r in recipes]
     fails: List[dict] = []
     n = 0
     stats = stats if stats is not None else {}
     for level in levels:
-        out, err = run_level(recipes, level)
+        out, err = (pre, "") if pre is not None else run_level(recipes, level)
         if out is None:
             fails.append({"clause": "interpreter.driver_runs", "kind": "driver-crash", "key": f"interpreter:{level or 'plain'}:driver-crash",
                           "detail": err, "case": {"check": "interpreter", "recipes": recipes, "level": level}})
             continue
-        if (out["debug"] is not (level == "")) or ((level == "-OO") != (out["doc"] is False)):
-            raise RuntimeError(f"sub-process did not run at level {level!r}: debug={out['debug']}, docstrings={out['doc']}")
         for recipe, a, b in zip(recipes, inproc, out["results"]):
             for c in config_ids(recipe):
                 n += 1
@@ -402,67 +430,43 @@ def _parse_cli(stdout: str):
     return z, grads
 
 
-def _cli_driver_main():
-    """sub-process entry: list of argv lists on stdin; runs bin/sum_product.py once per argv (as __main__, at this
-    interpreter's optimisation level) and prints [{"stdout", "stderr", "exit", "exc"}]."""
-    import contextlib
-    import io
-    import runpy
-    import torch
-    torch.set_num_threads(1)
-    jobs = json.load(sys.stdin)
-    out = []
-    for argv in jobs:
-        so, se = io.StringIO(), io.StringIO()
-        rec = {"exit": 0, "exc": None}
-        old_argv = sys.argv
-        sys.argv = ["/repo/bin/sum_product.py"] + list(argv)
-        try:
-            with contextlib.redirect_stdout(so), contextlib.redirect_stderr(se), warnings.catch_warnings():
-                warnings.simplefilter("always")
-                runpy.run_path("/repo/bin/sum_product.py", run_name="__main__")
-        except SystemExit as e:
-            rec["exit"] = e.code if isinstance(e.code, int) else (0 if e.code is None else 1)
-        except BaseException as e:  # noqa
-            rec["exit"] = 1
-            rec["exc"] = f"{type(e).__name__}@{_exc_site(e)}: {str(e)[:160]}"
-        finally:
-            sys.argv = old_argv
-        rec["stdout"], rec["stderr"] = so.getvalue(), se.getvalue()[-400:]
-        out.append(rec)
-    sys.__stdout__.write(json.dumps({"debug": __debug__, "results": out}))
-
-
 def _cli_argv(path: str, method: str, jp: bool) -> List[str]:
     return [path, "-d", "-G", "-m", method, "-l", repr(SOLVER["float64"][0]), "-k", str(SOLVER["float64"][1])] + (["-j"] if jp else [])
 
 
-def cli_check(items: List[Tuple[dict, str, bool]], level: str, direct: bool = False) -> Tuple[List[dict], int]:
-    """items = [(recipe, method, j_precompute)]: bin/sum_product.py <fgg.json> -d -G -m M [-j] -l 1e-10 -k 5000 at the given
-    interpreter level (all items in one sub-process through runpy; direct=True: the first item also as a real
-    `python <level> bin/sum_product.py ...` command, which must print exactly the same text) against the library call."""
+def cli_files(items: List[Tuple[dict, str, bool]], td: str) -> List[List[str]]:
     import fggs
+    argvs = []
+    for i, (recipe, method, jp) in enumerate(items):
+        path = os.path.join(td, f"g{i}.json")
+        with open(path, "w") as f:
+            # explicit ids: hrg_to_json writes nodes and edges sorted by str(id), and implicit ids are object
+            # addresses -- with "r<i>e<k>" ids the file lists the edges in recipe order, the order the library run uses
+            json.dump(fggs.fgg_to_json(G.build_fgg(recipe, "Real", "float64", {"ids": "explicit"})), f)
+        argvs.append(_cli_argv(path, method, jp))
+    return argvs
+
+
+def cli_check(items: List[Tuple[dict, str, bool]], level: str, direct: bool = False, pre: Optional[Tuple[dict, List[List[str]]]] = None) -> Tuple[List[dict], int]:
+    """items = [(recipe, method, j_precompute)]: bin/sum_product.py <fgg.json> -d -G -m M [-j] -l 1e-10 -k 5000 at the given
+    interpreter level (all items in one sub-process, the script run as __main__ through runpy; direct=True: the first
+    item also as a real `python <level> bin/sum_product.py ...` command, which must print exactly the same text)
+    against the library call.  pre = (driver output, argvs) when the sub-process has already been run."""
     fails: List[dict] = []
     n = 0
     with tempfile.TemporaryDirectory(prefix="c11-") as td:
-        argvs = []
-        for i, (recipe, method, jp) in enumerate(items):
-            path = os.path.join(td, f"g{i}.json")
-            with open(path, "w") as f:
-                # explicit ids: hrg_to_json writes nodes and edges sorted by str(id), and implicit ids are random --
-                # with "r<i>e<k>" ids the file lists the edges in recipe order, the order the library run uses
-                json.dump(fggs.fgg_to_json(G.build_fgg(recipe, "Real", "float64", {"ids": "explicit"})), f)
-            argvs.append(_cli_argv(path, method, jp))
-        cmd = [PY] + ([level] if level else []) + ["-c", "import props.c11_bounded as m; m._cli_driver_main()"]
-        p = subprocess.run(cmd, input=json.dumps(argvs), capture_output=True, text=True, env=_env(), cwd="/verif", timeout=900)
-        if p.returncode != 0:
-            return [{"clause": "cli.driver_runs", "kind": "driver-crash", "key": f"cli:{level or 'plain'}:driver-crash",
-                     "detail": f"exit {p.returncode}: {p.stderr[-400:]}",
-                     "case": {"check": "cli", "items": [list(x) for x in items], "level": level}}], 0
-        outs = json.loads(p.stdout)
-        if outs["debug"] is not (level == ""):
-            raise RuntimeError(f"cli sub-process did not run at level {level!r}")
+        if pre is None:
+            argvs = cli_files(items, td)
+            out, err = run_level([], level, argvs)
+            if out is None:
+                return [{"clause": "cli.driver_runs", "kind": "driver-crash", "key": f"cli:{level or 'plain'}:driver-crash", "detail": err,
+                         "case": {"check": "cli", "items": [list(x) for x in items], "level": level}}], 0
+        else:
+            out, argvs = pre
+        outs = {"results": out["cli"]}
         if direct:
+            if pre is not None:
+                argvs = cli_files(items[:1], td)
             env = _env()
             env["PYTHONPATH"] = "/repo"
             q = subprocess.run([PY] + ([level] if level else []) + ["/repo/bin/sum_product.py"] + argvs[0],
@@ -555,13 +559,22 @@ def _task(task):
         st = {"in-scope": 1, "warned-configs": sum(1 for r in res.values() if r["warned"]),
               "exception-configs": sum(1 for r in res.values() if r["status"] != "ok")}
         return kind, relational(recipe, res), len(res), st
-    if kind == "interpreter":
-        st = {}
-        fl, n = interpreter_check(task[1], (task[2],), st)
-        return kind, fl, n, st
-    if kind == "cli":
-        fl, n = cli_check(task[1], task[2], direct=task[3])
-        return kind, fl, n, {}
+    if kind == "level":
+        # one sub-process per (chunk, level): the whole cross product of the chunk's grammars and the cli items
+        _, recipes, items, level, direct = task
+        st: Dict[str, int] = {}
+        with tempfile.TemporaryDirectory(prefix="c11-") as td:
+            argvs = cli_files(items, td) if items else []
+            out, err = run_level(recipes, level, argvs)
+        if out is None:
+            return "interpreter", [{"clause": "interpreter.driver_runs", "kind": "driver-crash", "key": f"interpreter:{level or 'plain'}:driver-crash",
+                                    "detail": err, "case": {"check": "interpreter", "recipes": recipes, "level": level}}], 0, st
+        fl, n = interpreter_check(recipes, (level,), st, pre=out)
+        if items:
+            fl2, n2 = cli_check(items, level, direct=direct, pre=(out, argvs))
+            st["cli-runs"] = n2
+            fl, n = fl + fl2, n + n2
+        return "interpreter", fl, n, st
     raise ValueError(kind)
 
 
@@ -583,8 +596,8 @@ def run_bounded(ctx: Ctx) -> Report:
     n_interp, n_cli = (6, 3) if not ctx.thorough else (40, 10)
     # the interpreter / cli samples: the hand-written shapes first (they are the ones with assertions on the path)
     pick = [g for g in scoped if not (g.get("meta") or {}).get("family", "").startswith("reweighted")]
-    wanted = ["three-edges-private-first-node", "shared-factor", "recursive-chain-three-edges", "nonlinear-arity1",
-              "all-edges-on-externals", "edgeless-ext-and-internal-arity2"]
+    wanted = ["three-edges-private-first-node", "all-edges-on-externals", "shared-factor", "recursive-chain-three-edges",
+              "nonlinear-arity1", "edgeless-ext-and-internal-arity2"]
     first = []
     for w in wanted:
         first += [g for g in pick if g["meta"]["family"] == w][:1]
@@ -598,11 +611,12 @@ def run_bounded(ctx: Ctx) -> Report:
     items = [(g, "newton", jp) for g in cli for jp in (False, True)] + [(cli[0], "fixed-point", False)]
     for level in LEVELS:
         for i in range(0, len(interp), per):
-            tasks.append(("interpreter", interp[i:i + per], level))
-        tasks.append(("cli", items, level, level == "-OO"))      # -OO is the script's own shebang level
+            # the first chunk of each level also carries the command-line runs; -OO is the script's own shebang level
+            tasks.append(("level", interp[i:i + per], items if i == 0 else [], level, level == "-OO" and i == 0))
     tasks += [("grammar", g) for g in recipes]
     fails: List[dict] = []
     counts = {"grammar": 0, "interpreter": 0, "cli": 0}
+    n_cli_runs = 0
     stats: Dict[str, int] = {}
     jobs = max(1, min(ctx.jobs, len(tasks)))
     if jobs > 1:
@@ -616,8 +630,11 @@ def run_bounded(ctx: Ctx) -> Report:
     for kind, fl, n, st in results:
         fails.extend(fl)
         counts[kind] += n
+        n_cli_runs += st.pop("cli-runs", 0)
         for k, v in st.items():
             stats[k] = stats.get(k, 0) + v
+    counts["cli"] = n_cli_runs
+    counts["interpreter"] -= n_cli_runs
     per_key: Dict[str, int] = {}
     for f in fails:
         per_key[f["key"]] = per_key.get(f["key"], 0) + 1
